@@ -24,6 +24,17 @@ class TOuter(std.Record[WidthArg]):
     v: Unsigned[WidthArg]
 
 
+class TDerived(TInner):
+    """templated record deriving from a templated record: base fields first (least significant)"""
+
+    d: Unsigned[WidthArg]
+    e: Bit
+
+
+class TDerived2(TDerived):
+    f: BitVector[WidthArg]
+
+
 class Flags(std.FlagEnum[BitVector[3]]):
     f0 = "001"
     f1 = "010"
